@@ -120,7 +120,7 @@ class Model:
             params[i] = v
         ev = MG.Evaluator(P, args, params, self.consts, self.statics)
         v, d = ev.run()
-        return v, max(d, 4.0 * MG.ulp(v)) + 1e-300, ev.events
+        return v, MG.TOLK * max(d, 4.0 * MG.ulp(v)) + 1e-300, ev.events
 
 
 def known_key_for(P, iface, used_default):
@@ -140,12 +140,23 @@ def known_key_for(P, iface, used_default):
 
 
 def check_case(case):
+    try:
+        return _check_case(case)
+    except Reject:
+        raise
+    except Exception:
+        import traceback
+        MG.note_failure()
+        return Result(False, key="C37.harness", msg="harness error:\n" + traceback.format_exc()[-3000:])
+
+
+def _check_case(case):
     prog = case["prog"]
     try:
         P = MG.Prepared(prog)
     except MG.Reject:
         raise Reject()
-    libs, err = MG.build_budgeted(P, ROOT, int(param("shrink_builds", 10)))
+    libs, err = MG.build_budgeted(P, ROOT, int(os.environ.get("VERIF_SHRINK_BUILDS", param("shrink_builds", 10))))
     if err:
         kind = "mfront" if err.startswith("mfront") else "gxx"
         MG.note_failure()
@@ -313,7 +324,7 @@ def tab_ref(interp, extrapolate):
 
     def f(T):
         v, scale = MG.table_reference(xs, ys, interp, extrapolate, T)
-        return float(v), (2000.0 if interp == "cubic_spline" else 16.0) * MG.EPS * float(scale)
+        return float(v), MG.TOLK * (2000.0 if interp == "cubic_spline" else 16.0) * MG.EPS * float(scale)
     return lambda a, p: f(a[0])
 
 
@@ -377,6 +388,13 @@ class RepoProgram:
 
 
 def repo_case(entry):
+    try:
+        return _repo_case(entry)
+    except Exception as e:  # a harness error must not be silent
+        return entry[0], ("C37.repo.harness", "%s: %s: %s" % (entry[0], type(e).__name__, e)), None
+
+
+def _repo_case(entry):
     fn, fname, nin, params, ref, rg = entry
     P = RepoProgram(fname, nin, params)
     P.text = open(os.path.join(REPO, "mfront", "tests", "properties", fn + ".mfront"), encoding="utf-8",
